@@ -68,6 +68,40 @@ def board_methods(facts):
     return [n for n in facts.fns if n.startswith(BOARD + '::')]
 
 
+MOVE_INFO = 'chess::board::move_info::MoveInfo'
+_BASE_FNS = []
+
+
+def board_api(facts):
+    """(opaque set, call aliases) for effect summaries at the level of the Board API.  The methods of the pinned tree are the vocabulary
+    of the rules and stay opaque.  A `&mut Board` method the pinned tree does not have (a maintainer's `push_move_state(ep, lost)` that
+    bundles two stack operations) is looked INTO instead: what it does to `self.move_info` through MoveInfo's own methods is recorded
+    under the name of the Board delegator of the same name (same arguments; the delegator adds only the re-keying of the hash, which
+    C05 decides for every stack-changing method by itself)."""
+    if not _BASE_FNS:
+        import json as _json
+        from sa.facts import BASELINE
+        try:
+            _BASE_FNS.append(set(_json.load(open(BASELINE))['fns']))
+        except Exception:
+            _BASE_FNS.append(set())
+    base = _BASE_FNS[0]
+    names = board_methods(facts)
+    new_mut = [n for n in names if base and n not in base and facts.fns[n].kind != 'Closure' and not facts.fns[n].derived
+               and facts.fns[n].arg_count >= 1 and facts.fns[n].local_ty(1) == '&mut ' + BOARD]
+    opaque = set(names) - set(new_mut)
+    alias = {}
+    if new_mut:
+        # the hash bookkeeping below Board is C05's business: kept as plain calls
+        opaque |= {n for n in facts.fns if n.startswith('chess::board::position_info::PositionInfo::')}
+        for n in names:
+            m = method(n)
+            if n in base and (MOVE_INFO + '::' + m) in facts.fns:
+                opaque.add(MOVE_INFO + '::' + m)
+                alias[MOVE_INFO + '::' + m] = n
+    return opaque, alias
+
+
 def method(name):
     return name.rsplit('::', 1)[-1]
 
@@ -96,7 +130,8 @@ def kind_summaries(ctx, which, fold_helpers=True, extra_opaque=()):
     for k, path in KINDS.items():
         name = path + '::' + which
         ctx.touch(name)
-        eng = Engine(facts, opaque=set(board_methods(facts)) | set(extra_opaque), fold_only=fo)
+        opq, alias = board_api(facts)
+        eng = Engine(facts, opaque=opq | set(extra_opaque), fold_only=fo, call_alias=alias, max_paths=20000 if alias else 4096)
         out[k] = (name, eng.run(name))
     return out
 
@@ -413,3 +448,50 @@ def finder_summary(facts, name):
 def find_events(facts, o):
     """first-match searches on a path: calls of Iterator::find and calls of crate functions with a finder summary"""
     return [e for e in o.events if e[0] == 'call' and ((e[1].endswith('::find') and 'Iterator' in e[1]) or finder_summary(facts, e[1]) is not None)]
+
+
+# ---- comparing two paths up to one decision ------------------------------------------------------------------------------------------
+def _normalise(x, ren):
+    """path-local numbering of call instances / unknowns (the engine numbers them globally across paths) and no epochs, so that two paths
+    can be compared for being the same up to one decision"""
+    if isinstance(x, tuple):
+        if len(x) == 2 and x[0] == 'e' and isinstance(x[1], int):
+            return ('e', 0)
+        if len(x) == 3 and x[0] == 'L' and isinstance(x[1], int) and isinstance(x[2], int):
+            return ('L', ren.setdefault(('f', x[1]), len(ren)), x[2])
+        if len(x) == 2 and x[0] in ('havoc', 'hv') and isinstance(x[1], int):
+            return (x[0], ren.setdefault(('u', x[1]), len(ren)))
+        if len(x) >= 4 and x[0] == 'call' and isinstance(x[3], int) and not isinstance(x[3], bool):
+            head = ('call', x[1], _normalise(x[2], ren), ren.setdefault(('u', x[3]), len(ren)))
+            return head + tuple(_normalise(y, ren) for y in x[4:])
+        return tuple(_normalise(y, ren) for y in x)
+    if isinstance(x, list):
+        return tuple(_normalise(y, ren) for y in x)
+    if isinstance(x, dict):
+        return tuple(sorted((repr(k), _normalise(v, ren)) for k, v in x.items()))
+    return x
+
+
+
+_SIB_CACHE = {}
+
+
+def decides_only(outs, o, i, drop_event, tag=''):
+    """The decision at path condition i of outcome o decides nothing but events of the kind `drop_event` accepts: some other path takes the
+    decision the other way and is otherwise the same path (same kind, same remaining conditions, same value, same events once the
+    droppable ones are removed; call instances, frames and unknowns renumbered path-locally, events compared without span and epoch)."""
+    def sig(p):
+        evs = [e for e in p.events if not drop_event(p, e)]
+        evs = [(e[:5] + (e[6],) if e[0] == 'call' and len(e) > 6 else (e[:2] if e[0] == 'drop' else e)) for e in evs]
+        return _normalise((p.kind, [x for j, x in enumerate(p.conds) if j != i], evs, p.value), {})
+    atom = repr(_normalise(o.conds[i][0], {}))
+    key = (id(outs), i, atom, tag)
+    if key not in _SIB_CACHE:
+        table = {}
+        for p in outs:
+            if len(p.conds) > i and repr(_normalise(p.conds[i][0], {})) == atom:
+                table.setdefault(sig(p), set()).add(repr(p.conds[i][1]))
+        if len(_SIB_CACHE) > 64:
+            _SIB_CACHE.clear()
+        _SIB_CACHE[key] = table
+    return len(_SIB_CACHE[key].get(sig(o), ())) >= 2
